@@ -101,4 +101,13 @@ def blockIdExtDecl : Decl :=
                { name := "file_hash", cond := none, ty := .int256 }],
     result := "tonNode.BlockIdExt" }
 
+/-- declarations of lite_api.tl whose spelled id is NOT the CRC-32 of their text (mirrored in props/C10.py): three
+ids computed with the parentheses of `(vector …)` kept (known findings) and one id pinned upstream after the declaration
+changed. They are outside C10's statement, which speaks of the id given in the schema line. -/
+def crcExceptions : List String :=
+  ["liteServer.libraryResultWithProof", "liteServer.lookupBlockResult", "liteServer.getLibrariesWithProof",
+   "liteServer.getValidatorStats"]
+
+def crcExceptionCodes : List (List Nat) := crcExceptions.map (fun s => s.toList.map Char.toNat)
+
 end Tongo.Tl
